@@ -18,14 +18,17 @@ META = {
              "(six named deviations must each violate their invariant), and emits every transition plus exact rational "
              "statistics; the harness replays every transition and seeded chains of three operations on real Samples / "
              "JointSamples objects (columns encode their index; arrays compared exactly, statistics to rtol 1e-12) and "
-             "intercepts arviz.ess / arviz.rhat to compare the dictionary handed over and the order of the result."),
+             "intercepts arviz.ess / arviz.rhat to compare the dictionary handed over and the order of the result. Code -> "
+             "spec: calls recorded from a seeded random driver (chains up to 200 samples) and, in the thorough tier, from "
+             "tests/test_samples.py and tests/test_geometry.py are validated by TLC against TraceSamplesOps.tla."),
     "note": ("Bounded chain lengths, burn-in / thinning boxes, eight fixed small geometries and a finite set of credibility "
              "levels; statistics are compared on integer-valued chains with distinct entries per coordinate. "
              "Samples.vector for Continuous2D function values (not implemented by the library) and ESS/R-hat of "
              "function-value samples whose dimension differs from the parameter dimension are outside the asserted "
              "behaviour. Exception types of refused burn-in values are not asserted."),
     "technique": "TLA+ spec (SamplesOps) model-checked with TLC; TLC-emitted transitions and exact statistics replayed "
-                 "into cuqi.samples.Samples / JointSamples; arviz entry points wrapped in the harness process",
+                 "into cuqi.samples.Samples / JointSamples; arviz entry points wrapped in the harness process; recorded "
+                 "calls validated by TLC against TraceSamplesOps.tla",
 }
 
 import contextlib, io, math, random, warnings
@@ -623,7 +626,8 @@ def run(ctx, only=None):
         tot_e += ne
         tot_w += nw
     n_trace = run_traces(ctx) if only is None else 0
-    some = sorted(graph.nodes)[len(graph.nodes) // 2]
+    cand = [k for k in sorted(graph.nodes) if k[1][3] == "imgF" and not k[1][1] and not k[1][2] and len(k[1][0]) == 3]
+    some = cand[0] if cand else sorted(graph.nodes)[len(graph.nodes) // 2]
     nd = graph.nodes[some]
     ctx.sample({"node": {"c": nd["c"], "obj": nd["obj"], "stats[0]": nd["stats"][0], "arviz": nd["arviz"]}})
     for ck in sorted(graph.edges):
